@@ -1816,8 +1816,7 @@ static void DecodeSEL(Word Code) {
         WrStrErrorPos(ErrNum_InvReg, &ArgStr[1]);
     } else if ((ArgCnt == 2) && (as_strcasecmp(ArgStr[2].str.p_str, "ALT"))) {
         WrStrErrorPos(ErrNum_InvReg, &ArgStr[2]);
-    }
-    {
+    } else {
         BAsmCode[CodeLen++] = 0x05;
         BAsmCode[CodeLen++] = 0xa8 | Bank | ((ArgCnt - 1) << 4);
     }
